@@ -27,7 +27,8 @@ EXPLANATION = (
     "(_ir, _vectorization_*) and the class-level operator cache are exempt; OperatorTemplate.apply may fill defaults into its `values` "
     "argument, so every caller must hand it a dictionary that does not alias template state.  R3 per-node array values are indexed "
     "by the enumerate counter of the same target_nodes list whose length the array size was compared with (update_var and apply).  "
-    "NOT decided: the values themselves, ordering of wildcard expansion (C06), aliases created by storing references inside objects."
+    "R4 update_var(edge_vars) selects the edge to replace by identity with the tuple registered for (source, target, idx), never by "
+    "value (equal parallel edges are legal).  NOT decided: the values themselves, ordering of wildcard expansion (C06), aliases created by storing references inside objects."
 )
 RULE_TEXT = "instances = mutating/compiling entry points of the template classes; verdict from transitive mutation summaries with alias tracking"
 ASSUMPTIONS = ["copy.deepcopy shares nothing mutable; template constructors return fresh objects."]
@@ -210,8 +211,47 @@ def _anc(n):
         p = getattr(p, "_parent", None)
 
 
+
+def r4_edge_update_replaces_exactly_one_edge(ctx, rid):
+    """update_var(edge_vars=...) replaces the addressed edge tuple in this template's edge list.  Several edges between the same
+    pair of variables are legal and may carry equal attributes, so the tuple to replace must be selected by identity (or by
+    position), not by value: `==` on (source, target, template, attributes) replaces every equal parallel edge."""
+    f = ctx.repo.get_func(FC, "CircuitTemplate.update_var")
+    selfn = f.self_name
+    rebuilds = [st for st in walk_shallow(f.node) if isinstance(st, ast.Assign) and any(
+        isinstance(t, ast.Attribute) and t.attr == "edges" and isinstance(t.value, ast.Name) and t.value.id == selfn for t in st.targets)]
+    if not rebuilds:
+        raise AnalysisError(f"{rid}: update_var no longer re-binds self.edges (edge replacement form not recognised)")
+    for st in rebuilds:
+        v = st.value
+        if not isinstance(v, ast.ListComp) or not isinstance(v.elt, ast.IfExp):
+            raise AnalysisError(f"{rid}: unrecognised edge replacement `{norm(st)}`")
+        test = v.elt.test
+        gen = v.generators[0]
+        over_own_list = isinstance(gen.iter, ast.Attribute) and gen.iter.attr == "edges"
+        if not (isinstance(test, ast.Compare) and len(test.ops) == 1 and over_own_list):
+            raise AnalysisError(f"{rid}: unrecognised selection test in `{norm(st)}`")
+        op = test.ops[0]
+        # the reference object must come from this template's own edge map (get_edge) so that identity is meaningful
+        ref = test.comparators[0] if isinstance(test.left, ast.Name) and test.left.id == getattr(gen.target, "id", None) else test.left
+        from engine.util import single_def_value
+        rv = single_def_value(ctx, f, ref) if isinstance(ref, ast.Name) else None
+        from_map = isinstance(rv, ast.Call) and call_name(rv) == "get_edge"
+        facts = {"selection": ast.unparse(test), "reference": ast.unparse(rv) if rv is not None else None}
+        if isinstance(op, ast.Is) and from_map:
+            ctx.ok(rid, f, st, "the edge to replace is selected by identity with the tuple registered in this template's edge map", facts)
+        elif isinstance(op, (ast.Eq,)):
+            ctx.violation(rid, f, st, "the edge to replace is selected by value (`==`): parallel edges between the same variables with equal "
+                                      "attributes are all replaced by the update addressed to one of them", facts)
+        elif not from_map:
+            ctx.violation(rid, f, st, "the reference edge is not the tuple returned by get_edge for the addressed (source, target, idx)", facts)
+        else:
+            raise AnalysisError(f"{rid}: unrecognised selection operator in `{norm(st)}`")
+
+
 RULES = [
     ("C07-R1", r1_update_var_writes_private_state, 3),
     ("C07-R2", r2_apply_does_not_write_template, 9),
     ("C07-R3", r3_array_values_by_position, 2),
+    ("C07-R4", r4_edge_update_replaces_exactly_one_edge, 1),
 ]
